@@ -136,6 +136,10 @@ func planCollision(rt *rapid.T, a *adapter, s *spec, in *input) *candidate {
 	if !a.hasPrefix || len(s.entries) < 2 || rapid.IntRange(0, 3).Draw(rt, "collision") != 0 {
 		return nil
 	}
+	skip := func(why string) *candidate {
+		evid.Add("prefix_collision_skipped/"+a.name+"/"+why, 1)
+		return nil
+	}
 	var raws []*entry
 	for _, e := range s.entries {
 		if e.fate == fEnabled && len(e.prefix()) == 0 && a.cheapRaw(e) {
@@ -143,7 +147,44 @@ func planCollision(rt *rapid.T, a *adapter, s *spec, in *input) *candidate {
 		}
 	}
 	if len(raws) == 0 {
-		return nil
+		// No ENABLED prefix-less entry that produces cheaply (the usual situation for signatures and hybrid
+		// encryption): one non-primary entry is turned into one - a harness legacy key gets prefix type
+		// RAW, a real key its NO_PREFIX variant when that is cheap, any other key is replaced by a harness
+		// legacy RAW key with fresh material.  The entry keeps its keyset ID and becomes ENABLED.
+		var np []*entry
+		for _, e := range s.entries {
+			if !e.primary {
+				np = append(np, e)
+			}
+		}
+		e := gen.Pick(rt, "collision_convert", np)
+		how := ""
+		if e.legacy() {
+			e.prefixType = tinkpb.OutputPrefixType_RAW
+			how = "legacy-to-raw"
+		} else if re, ok := e.info.WithVariantID(tk.NoPrefix, 0); ok && re.Usable && !re.NoSerialization && len(re.OutputPrefix()) == 0 && a.cheapRaw(&entry{info: re}) {
+			e.info = re
+			how = "variant-to-noprefix"
+		} else if a.legacyURL != "" {
+			e.info, e.url, e.prefixType = nil, a.legacyURL, tinkpb.OutputPrefixType_RAW
+			e.material = normalize(a.legacyURL, gen.BytesN(rt, "collision_material", a.legacyLen))
+			for clash := true; clash; { // key material is never duplicated inside a keyset
+				clash = false
+				for _, o := range s.entries {
+					if o != e && twins(o, e) {
+						e.material[8]++
+						clash = true
+					}
+				}
+			}
+			how = "replaced-by-legacy-raw"
+		} else {
+			return skip("no-convertible-entry")
+		}
+		e.fate = fEnabled
+		e.setID(rt, e.id)
+		raws = []*entry{e}
+		evid.Add("prefix_collision_converted/"+a.name+"/"+how, 1)
 	}
 	i := rapid.SampledFrom(raws).Draw(rt, "collision_raw")
 	var others []*entry
@@ -169,12 +210,12 @@ func planCollision(rt *rapid.T, a *adapter, s *spec, in *input) *candidate {
 		}
 	}
 	if out == nil {
-		return nil
+		return skip("no-output-with-a-prefix-start-byte")
 	}
 	newID := binary.BigEndian.Uint32(out[1:5])
 	for _, e := range s.entries {
 		if e != j && e.id == newID {
-			return nil
+			return skip("id-taken")
 		}
 	}
 	wantVariants := []string{tk.Tink}
@@ -199,12 +240,13 @@ func planCollision(rt *rapid.T, a *adapter, s *spec, in *input) *candidate {
 		}
 	}
 	if !done {
-		return nil
+		return skip("other-entry-has-no-such-variant")
 	}
 	if !bytes.HasPrefix(out, j.prefix()) {
 		rt.Fatalf("%v\nharness: collision planning failed: %x does not start with %x", s, out, j.prefix())
 	}
 	evid.Add("prefix_collision_cases", 1)
+	evid.Add("prefix_collision_cases/"+a.name, 1)
 	return &candidate{kind: fmt.Sprintf("output of prefix-less #%d that starts with the prefix of #%d", i.idx, j.idx), out: out, in: in2, from: i, strict: true}
 }
 
@@ -243,7 +285,7 @@ func (c *ctx) check(w *prim, cand *candidate) {
 	if cand.strict {
 		for _, e := range acc {
 			if !slices.Contains(cand.allowed, e) {
-				c.fatalf("candidate %q out=%x input(%v): the single-key primitive of %s accepts an output of an unrelated key", cand.kind, cand.out, cand.in, e)
+				c.fatalf("candidate %q out=%x input(%v): the single-key primitive of %s accepts it, although only %s may (the byte string is not an output of that key: another key's output, or a manipulated one)", cand.kind, cand.out, cand.in, e, names(cand.allowed))
 			}
 		}
 	}
@@ -415,28 +457,31 @@ func runSelection(rt *rapid.T, a *adapter, monitored bool) {
 		cands = append(cands, jwtKidCandidates(c)...)
 	}
 
-	// ---- prefix manipulations of one drawn entry's output
+	// ---- prefix manipulations of one drawn entry's output.  None of these byte strings is an output of
+	// any key (IDs are unique inside the keyset, key material is never shared): no single-key primitive may
+	// accept one (strict, nobody allowed), so a flaw that the single-key and the keyset primitive share
+	// does not hide in the model.
 	if a.hasPrefix {
 		i := rapid.SampledFrom(s.entries).Draw(rt, "manip_source")
 		body := outs[i.idx][len(i.prefix()):]
 		for _, j := range s.entries {
 			if j != i && len(j.prefix()) > 0 {
-				cands = append(cands, &candidate{kind: fmt.Sprintf("output of #%d under the prefix of #%d", i.idx, j.idx), out: slices.Concat(j.prefix(), body), in: in, from: i})
+				cands = append(cands, &candidate{kind: fmt.Sprintf("output of #%d under the prefix of #%d", i.idx, j.idx), out: slices.Concat(j.prefix(), body), in: in, from: i, strict: true})
 			}
 		}
 		if len(i.prefix()) > 0 {
-			cands = append(cands, &candidate{kind: fmt.Sprintf("output of #%d without its prefix", i.idx), out: body, in: in, from: i})
+			cands = append(cands, &candidate{kind: fmt.Sprintf("output of #%d without its prefix", i.idx), out: body, in: in, from: i, strict: true})
 			o := append([]byte{}, outs[i.idx]...)
 			o[0] ^= 1
-			cands = append(cands, &candidate{kind: fmt.Sprintf("output of #%d with the other prefix start byte", i.idx), out: o, in: in, from: i})
+			cands = append(cands, &candidate{kind: fmt.Sprintf("output of #%d with the other prefix start byte", i.idx), out: o, in: in, from: i, strict: true})
 			pos := rapid.IntRange(1, 4).Draw(rt, "manip_id_byte")
 			o = append([]byte{}, outs[i.idx]...)
 			o[pos] ^= byte(rapid.IntRange(1, 255).Draw(rt, "manip_id_xor"))
-			cands = append(cands, &candidate{kind: fmt.Sprintf("output of #%d with ID byte %d of the prefix changed", i.idx, pos), out: o, in: in, from: i})
+			cands = append(cands, &candidate{kind: fmt.Sprintf("output of #%d with ID byte %d of the prefix changed", i.idx, pos), out: o, in: in, from: i, strict: true})
 		} else {
 			// a prefix-less output behind a Tink / Crunchy prefix with the entry's own keyset ID
 			for _, v := range []string{tk.Tink, tk.Crunchy} {
-				cands = append(cands, &candidate{kind: fmt.Sprintf("prefix-less output of #%d behind a %s prefix with its keyset ID", i.idx, v), out: slices.Concat(tk.Prefix(v, i.id), body), in: in, from: i})
+				cands = append(cands, &candidate{kind: fmt.Sprintf("prefix-less output of #%d behind a %s prefix with its keyset ID", i.idx, v), out: slices.Concat(tk.Prefix(v, i.id), body), in: in, from: i, strict: true})
 			}
 		}
 	}
@@ -480,16 +525,28 @@ func drawForeign(c *ctx) *candidate {
 		}
 		f.setLegacyKey(rt)
 	} else {
-		info := keys.DrawTypeUsable(rt, "foreign", target.info.Type)
 		variant, id := target.info.Variant, target.info.ID
 		if rawKind {
 			variant, id = tk.NoPrefix, 0
 		}
-		re, ok := info.WithVariantID(variant, id)
-		if !ok || !re.Usable {
-			return nil
+		// a second draw when the first coincides with a key of the keyset (RSA pool keys, constant fills,
+		// shrunk draws): the material comes from the generator and cannot be perturbed in place
+		for _, label := range []string{"foreign", "foreign_alt"} {
+			info := keys.DrawTypeUsable(rt, label, target.info.Type)
+			re, ok := info.WithVariantID(variant, id)
+			if !ok || !re.Usable {
+				return nil
+			}
+			f.info, f.key = re, re.Key
+			clash := false
+			for _, e := range s.entries {
+				clash = clash || twins(e, f)
+			}
+			if !clash {
+				break
+			}
+			evid.Add("foreign_redrawn_after_material_clash", 1)
 		}
-		f.info, f.key = re, re.Key
 	}
 	for _, e := range s.entries {
 		if twins(e, f) { // coincides with a genuine key (shrunk cases, RSA pool): not a foreign key
@@ -525,6 +582,20 @@ func record(c *ctx, ncands int) {
 		}
 		variants[v] = true
 	}
+	for _, e := range s.entries {
+		evid.Add("entry_type/"+c.a.name+"/"+e.typeName()+"/"+e.variant(), 1)
+		evid.Add("entry_fate/"+e.fate, 1)
+		switch e.id {
+		case 0:
+			evid.Add("entry_id/0", 1)
+		case 1<<32 - 1:
+			evid.Add("entry_id/2^32-1", 1)
+		}
+	}
+	for _, op := range s.history {
+		evid.Add("history_op/"+strings.SplitN(op, " ", 2)[0], 1)
+	}
+	evid.Add("route/"+s.route+"/"+s.factory, 1)
 	n := len(s.entries)
 	nb := map[bool]string{true: "n=1", false: "n=2"}[n == 1]
 	if n >= 3 {
